@@ -282,29 +282,33 @@ def run(repo: Repo, chk: Check, thorough: bool = False) -> None:
            'NotImplementedError handled' if ok else 'get_toc calls to_node() without handling NotImplementedError', gt.loc)
 
     # ---------------------------------------------------------------- R08.6
+    # "the problem is reported against that object": a de-duplication of reports (the same docstring is parsed and rendered several times) may drop a
+    # problem that WAS reported, never a different problem of an object that has one report already - a renderer failure after a parser warning.
+    # (Restated: this rule used to demand "once per object", which is what the code did and exactly what loses the second problem.)
     re_ = repo.func('pydoctor.epydoc2stan.reportErrors')
     cfg = CFG(re_)
     reports = [c for c in calls_in(re_) if call_name(c) == 'report']
-    ok = bool(reports)
+    if not reports:
+        raise AnalysisError('R08.6: reportErrors no longer reports through Documentable.report')
+    errp = re_.params()[1].arg
+    errvars = {errp} | {lp.target.id for lp in re_.walk() if isinstance(lp, ast.For) and isinstance(lp.target, ast.Name) and isinstance(lp.iter, ast.Name) and lp.iter.id == errp}
     for c in reports:
         tests = cfg.dominating_tests(cfg.stmt_of(c))
-        member = [t for t, pol in tests if pol and isinstance(t, ast.Compare) and isinstance(t.ops[0], ast.NotIn)]
-        if not member:
-            ok = False
-            continue
-        setname = dotted(member[0].comparators[0])
-        adds = [a for a in calls_in(re_) if call_name(a) == 'add' and isinstance(a.func, ast.Attribute) and dotted(a.func.value) == setname]
-        if not adds:
-            ok = False
-        # the de-duplication key is the qualified name (two objects may share a short name)
-        keys = [member[0].left] + [a.args[0] for a in adds if a.args]
-        if not all(isinstance(k, ast.Call) and call_name(k) == 'fullName' for k in keys):
-            ok = False
-            key_detail = f'the "already reported" set is keyed by `{norm(keys[0])}`, not by the qualified name: the errors of a second object with the same short name are never reported'
-
-    chk.ob('R08.6', 'pydoctor.epydoc2stan.reportErrors :: once per object', ok,
-           'report() is dominated by a `fullName() not in parse_errors[section]` test and the name is added' if ok else
-           (locals().get('key_detail') or 'reportErrors no longer de-duplicates per object'), re_.loc)
+        member = [t for t, pol in tests if isinstance(t, ast.Compare) and isinstance(t.ops[0], (ast.NotIn, ast.In))]
+        per_object = [t for t in member if not any(isinstance(x, ast.Name) and x.id in errvars - {errp} for x in ast.walk(t.left))]
+        ok6 = not per_object
+        chk.ob('R08.6', 'pydoctor.epydoc2stan.reportErrors :: a report is only skipped when that very problem was reported before', ok6,
+               'no membership test on the object alone guards report()' if ok6 else
+               f'`{norm(per_object[0])}` skips every later problem of an object that has been reported once: a renderer failure that follows a (recovered) parser '
+               'warning degrades the docstring to plain text without any message about it', repo.loc(re_.mod, c))
+    # the registry of objects with problems (driver: summary listing, exit status) is keyed by the qualified name (two objects may share a short name)
+    adds = [a for a in calls_in(re_) if call_name(a) == 'add' and a.args]
+    if not adds:
+        raise AnalysisError('R08.6: reportErrors no longer records the object in System.parse_errors')
+    okk = all(isinstance(a.args[0], ast.Call) and call_name(a.args[0]) == 'fullName' for a in adds)
+    chk.ob('R08.6', 'pydoctor.epydoc2stan.reportErrors :: objects with problems are recorded under their qualified name', okk,
+           'parse_errors[section].add(obj.fullName())' if okk else
+           f'the registry is keyed by `{norm(adds[0].args[0])}`, not by the qualified name: a second object with the same short name is not recorded', re_.loc)
 
     # ---------------------------------------------------------------- R08.9 a field whose body cannot be rendered still shows its text
     ff = repo.func('pydoctor.epydoc2stan.Field.format')
